@@ -11,7 +11,7 @@
      mdc   ( (key value).. )          thread () | (name)
      cls   ( (cp is_alphabetic is_alphanumeric).. )  oracle for non-ASCII chars
      rt    ( pid thread_id debug_assertions )
-     times ( (fmt valid utc local).. )               oracle for chrono
+     times ( (fmt validity utc local).. )            oracle for chrono (validity 0/1/2)
      ast   () | ( (node..) )   node = (0 text) | (1 c st) | (2 name ((node..)..) spec)
            spec = (colon fa min max), fa = () | (() a) | ((fill) a), a: 0 '<' 1 '>',
            min/max = () | (digits)
@@ -63,26 +63,28 @@ Definition dec_cls (v : vl) : option (N * (bool * bool)) :=
   | _ => None
   end.
 
-Definition time_tbl := list (str * (bool * (str * str))).
+(* validity: 0 = StrftimeItems yields an Item::Error, 1 = valid and renders,
+   2 = valid but Display fails (fmt::Error) *)
+Definition time_tbl := list (str * (N * (str * str))).
 
-Fixpoint time_get (t : time_tbl) (f : str) : option (bool * (str * str)) :=
+Fixpoint time_get (t : time_tbl) (f : str) : option (N * (str * str)) :=
   match t with
   | [] => None
   | (f', r) :: t' => if str_eqb f' f then Some r else time_get t' f
   end.
 
 Definition strftime_ok_of (t : time_tbl) (f : str) : bool :=
-  match time_get t f with Some (ok, _) => ok | None => false end.
-Definition time_str_of (t : time_tbl) (f : str) (z : tz) : str :=
+  match time_get t f with Some (ok, _) => negb (ok =? 0) | None => false end.
+Definition time_str_of (t : time_tbl) (f : str) (z : tz) : option str :=
   match time_get t f with
-  | Some (_, (u, l)) => match z with Utc => u | Local => l end
-  | None => []
+  | Some (k, (u, l)) => if k =? 1 then Some (match z with Utc => u | Local => l end) else None
+  | None => None
   end.
 
-Definition dec_time (v : vl) : option (str * (bool * (str * str))) :=
+Definition dec_time (v : vl) : option (str * (N * (str * str))) :=
   match v with
   | VL [f; ok; u; l] =>
-    match dec_str f, val_bool ok, dec_str u, dec_str l with
+    match dec_str f, val_N ok, dec_str u, dec_str l with
     | Some f', Some ok', Some u', Some l' => Some (f', (ok', (u', l')))
     | _, _, _, _ => None
     end
@@ -283,8 +285,8 @@ Definition c09_run (v : vl) : vl :=
               VL [VN 1;
                   VB (wf_seq al an true false seq);
                   VB (wf_seq al an false false seq);
-                  VB (forallb (sem_ok ok) seq);
-                  VB (forallb (sem_ok_mod_class ok) seq);
+                  VB (forallb (sem_ok ok (time_str_of (d_times d))) seq);
+                  VB (forallb (sem_ok_mod_class ok (time_str_of (d_times d))) seq);
                   VB (existsb in_known_class seq)];
               enc_result (meaning_seq (time_str_of (d_times d)) (d_env d) seq)]
         end
